@@ -9,7 +9,8 @@ def collect_claims():
     for f in sorted(glob.glob(os.path.join(VERIF, "vlib", "props", "c[0-9]*.py"))):
         pid = os.path.basename(f)[:-3].upper()
         mod = importlib.import_module(f"vlib.props.{pid.lower()}")
-        if getattr(mod, "CLAIM", None):
+        hold = json.load(open(os.path.join(VERIF, "hold.json"))) if os.path.exists(os.path.join(VERIF, "hold.json")) else {}
+        if getattr(mod, "CLAIM", None) and pid not in hold:
             out[pid] = mod.CLAIM
     return out
 
@@ -34,6 +35,8 @@ def main():
                 "technique": c["technique"],
             })
     na_reasons = json.load(open(os.path.join(VERIF, "not_applicable.json"))) if os.path.exists(os.path.join(VERIF, "not_applicable.json")) else {}
+    if os.path.exists(os.path.join(VERIF, "hold.json")):
+        na_reasons.update(json.load(open(os.path.join(VERIF, "hold.json"))))
     na = [{"property_id": p["id"], "reason": na_reasons.get(p["id"], "not claimed yet: machinery under construction in this round (see DESIGN.md section 10)")}
           for p in props if p["id"] not in CLAIMS]
     m = {
